@@ -618,4 +618,36 @@ theorem load_limit_zero_counter :
   exact ⟨by rfl, by rfl⟩
 
 end Load
+/-! ## `transposed` on the named layer -/
+
+/-- `Table.transposed(new_column_name, select_as_header)` on the NAMED layer (what the driver runs against the real
+Table), index column absent or selected as the header column: the result's header is the new column name followed
+by `str()` of the selected column's cells in row order; its first column holds the other column names in header
+order; the column made from a row holds that row's other cells in the same order. -/
+theorem named_transposed_eq (t : Table) (newName : String) (selectAs : Option String) (r : Table) (hw : t.WFT)
+    (hi : IndexOK t (selectAs.getD (t.header.headD "") :: t.header.filter (· ≠ selectAs.getD (t.header.headD ""))))
+    (h : t.transposed newName selectAs = .ok r) :
+    ∃ s sel names, t.name s = selectAs.getD (t.header.headD "") ∧
+      sel.map t.name = t.header.filter (· ≠ selectAs.getD (t.header.headD "")) ∧
+      t.rows.mapM (fun row => match (row.getD s dfl).pyStr with | some x => pure x | none => throw "unmodelled") = Except.ok names ∧
+      r.header = newName :: names ∧
+      r.cols = (sel.map fun j => Cell.str (t.name j)) :: t.rows.map (TableOps.proj dfl sel) :=
+  named_transposed_indexOK t newName selectAs r hw hi h
+
+/-- the same without the index hypothesis: the positions are those of `subNames` (index column first), which is
+where the open finding C20-index-column-moved-first-in-subtables shows in `transposed` -/
+theorem named_transposed_any_index (t : Table) (newName : String) (selectAs : Option String) (r : Table) (hw : t.WFT)
+    (h : t.transposed newName selectAs = .ok r) :
+    let sname := selectAs.getD (t.header.headD "")
+    let columns := t.subNames (sname :: t.header.filter (· ≠ sname))
+    ∃ s sel names, t.idxsOf columns = .ok (s :: sel) ∧ (s :: sel).map t.name = columns ∧
+      t.rows.mapM (fun row => match (row.getD s dfl).pyStr with | some x => pure x | none => throw "unmodelled") = Except.ok names ∧
+      r.header = newName :: names ∧
+      r.cols = (sname :: t.header.filter (· ≠ sname)).tail.map Cell.str :: t.rows.map (TableOps.proj dfl sel) :=
+  named_transposed t newName selectAs r hw h
+
+example : (Table.transposed { header := ["a", "k", "n"], cols := [[.str "x", .str "y"], [.str "p", .str "q"], [.int 1, .int 2]], index := none }
+    "names" (some "k")).toOption.map (fun r => (r.header, r.cols))
+    = some (["names", "p", "q"], [[.str "a", .str "n"], [.str "x", .int 1], [.str "y", .int 2]]) := by decide
+
 end CogentModel.C20
